@@ -6,6 +6,7 @@
 package c07
 
 import (
+	"crypto/sha256"
 	"fmt"
 	"strconv"
 	"strings"
@@ -33,17 +34,39 @@ func addFamily(name string, weight int, run func(c *hx.Ctx, r *hx.Rng, st *state
 func Run(c *hx.Ctx) error {
 	c.Stats.Rule = "generated column segments per codec (constant, const-delta, small deltas of every simple8b width, runs of ones around 120/240, int64 extremes, overflowing deltas, random 64-bit; lengths 0..3000) and simple8b value lists; every case is encoded by the real code, the exact bytes (library payloads: frame + length) are compared with the model, decoded again by the real code (round trip = spec) and by the model; a case is non-trivial when a non-raw mode was chosen or the input has an extreme value; distinct by op line"
 	n := c.Budget(40000, 1500000)
-	r := hx.NewRng(c.Seed)
+	// hx seeds are offsets into one splitmix sequence (seed+2 replays seed shifted by a case):
+	// re-seed from a mixed value so that different seeds give unrelated runs
+	r := hx.NewRng(hx.NewRng(c.Seed).U64() ^ (c.Seed * 0xD6E8FEB86659FD93))
 	st := newState()
 	only := c.Arg("family", "")
+	// whole-file cases open a real shard (~100 ms each): a fixed share of the run
+	for i := range families {
+		if families[i].name == "file" {
+			families[i].weight = 0
+		}
+	}
+	nFiles := c.Budget(120, 2500)
+	if c.N > 0 {
+		nFiles = c.N / 600
+	}
+	if only == "file" {
+		nFiles = n
+		n = 0
+	} else if only != "" {
+		nFiles = 0
+	}
 	total := 0
 	for _, f := range families {
 		if only == "" || strings.HasPrefix(f.name, only) {
 			total += f.weight
 		}
 	}
-	if total == 0 {
+	if total == 0 && nFiles == 0 {
 		return fmt.Errorf("no family matches %q", only)
+	}
+	for i := 0; i < nFiles; i++ {
+		runFile(c, r.Fork(), st)
+		c.Count("family:file")
 	}
 	for i := 0; i < n; i++ {
 		k := r.Intn(total)
@@ -107,6 +130,12 @@ func i64u(xs []int64) []uint64 {
 		out[i] = uint64(x)
 	}
 	return out
+}
+
+// opKey identifies a case for the distinct count without keeping the (long) op line alive.
+func opKey(op string) string {
+	h := sha256.Sum256([]byte(op))
+	return string(h[:16])
 }
 
 func short(s string) string {
